@@ -115,7 +115,7 @@ def neighbors_template(model, R, rule):
             spec_fn = spec.fn
             spec = bitalg.Pred(lambda occ: not spec_fn(occ), 'not spec')
         diff = bitalg.equivalent(pred, spec, pats)
-        R.check(diff is None, rule, func, br.test, 'neighbors: reject iff the closure gained another candidate that is still minimal',
+        R.decided(diff is None, rule, func, br.test, 'neighbors: reject iff the closure gained another candidate that is still minimal',
                 'extent & ~(objects | add) & minimal', pred.text,
                 extra={'rows(X,g,E,min)': [[r['X'], r['g'], r['E'], r['m']] for r in diff]} if diff else None)
     except (Unrecognised, bitalg.SortError) as e:
@@ -402,8 +402,20 @@ def init_template(model, R, rules):
                 rev = kws.get('reverse')
                 key = env.expand(key) if key is not None else None
                 kname = (chain(key) or [''])[-1].lstrip('_') if key is not None else None
-                R.check(kname == keyname and rev is None, O, func, a[0], f'Lattice: {attr} sorted by {keyname}', f'sorted(..., key={keyname})',
-                        f'key={src(key)}' + (f', reverse={src(rev)}' if rev is not None else ''))
+                if kname == keyname and rev is None:
+                    R.ok(O, func, a[0], f'Lattice: {attr} sorted by {keyname}')
+                elif rev is not None or kname in ('shortlex', 'longlex'):
+                    R.bad(O, func, a[0], f'Lattice: {attr} sorted by {keyname}', f'sorted(..., key={keyname})',
+                          f'key={src(key)}' + (f', reverse={src(rev)}' if rev is not None else ''))
+                else:
+                    # another key function of the class: decide it by what it returns
+                    kc = chain(key) or []
+                    target = func.cls.methods.get(kc[-1]) if func.cls is not None and kc else None
+                    if target is not None:
+                        R.returns(target, f'{target.params[-1]}._extent.{keyname}()', O, f'Lattice: {attr} sorted by {keyname} (key function {kc[-1]})',
+                                  consequence='any key that is not the full positional key leaves ties in generation order')
+                    else:
+                        R.unknown(O, func, a[0], f'Lattice: {attr} sort key', src(key))
             else:
                 R.bad(O, func, a[0], f'Lattice: {attr} sorted by {keyname}', f'sorted(..., key={keyname})', 'not sorted')
     # _init call
@@ -416,9 +428,7 @@ def init_template(model, R, rules):
     if O:
         for name in ('shortlex', 'longlex'):
             kf = model.func(f'lattices.Data._{name}')
-            r = [src(n.value) for n in walk(kf.body) if isinstance(n, ast.Return)]
-            R.check(r == [f'{kf.params[-1]}._extent.{name}()'], O, kf, kf.node, f'_{name} is the {name} key of the concept\'s extent',
-                    f'concept._extent.{name}()', str(r))
+            R.returns(kf, f'{kf.params[-1]}._extent.{name}()', O, f'_{name} is the {name} key of the concept\'s extent')
     # the Context side
     lm = model.func('contexts.LatticeMixin._lattice')
     r = [n.value for n in walk(lm.body) if isinstance(n, ast.Return)]
@@ -430,8 +440,7 @@ def init_template(model, R, rules):
         d = lm.defaults().get(lm.params[1])
         R.check(isinstance(d, ast.Tuple) and not d.elts, 'API-DEFAULT', lm, d or lm.node, 'Context._lattice: default bottom generators are ()', '()', src(d))
         lz = model.func('contexts.LatticeMixin.lattice')
-        r = [src(n.value) for n in walk(lz.body) if isinstance(n, ast.Return)]
-        R.check(r == ['lattices.Lattice(self)'], G, lz, lz.node, 'context.lattice is the lattice of this context', 'lattices.Lattice(self)', str(r))
+        R.returns(lz, 'lattices.Lattice(self)', G, 'context.lattice is the lattice of this context')
         # algorithms package re-exports the lindig functions under these names
         am = model.module('algorithms')
         R.check(am.imports.get('lattice') == 'pkg:algorithms.lindig.lattice' and am.imports.get('neighbors') == 'pkg:algorithms.lindig.neighbors',
